@@ -20,7 +20,8 @@ RULE = ('D1: molecule/reaction specs spelled by the independent random writer (d
         'D2: every sequence of <= 4 tokens (5 thorough) over a 24-token alphabet; D3: single-token corruptions of corpus '
         'strings. oracles: only ValueError subclasses may escape; reference-valid strings must be accepted and equal; '
         'atom maps (none / all / dense partial) in molecule and reaction text become atom numbers; every element symbol in four letter cases in six contexts. hard-invalid strings must be rejected. non-trivial = >= 2 atoms and a branch, closure, bracket atom, stereo mark, '
-        'CX block or reaction arrow; distinct by string')
+        'CX block or reaction arrow; distinct by string'
+        '; also: component-start spellings are also placed in later components.')
 ASSUMPTIONS = ['reference reader/writer vf/oracles/smiles_ref.py written for this task from the OpenSMILES subset chython documents',
                'grey-zone strings (closure 0, conflicting closure bonds, duplicate maps, odd CX blocks ...) only have to '
                'return a well-formed object or raise ValueError',
